@@ -135,6 +135,17 @@ func readAttrRowsWithDropped(data []byte) []map[string]interface{} {
 	return best
 }
 
+// tablesByFilenode returns the relations of a ParsePGClass map in ascending filenode order: map
+// iteration order is random, and what is reported must not depend on it
+func tablesByFilenode(tables map[uint32]TableInfo) []TableInfo {
+	list := make([]TableInfo, 0, len(tables))
+	for _, t := range tables {
+		list = append(list, t)
+	}
+	sort.Slice(list, func(i, j int) bool { return list[i].Filenode < list[j].Filenode })
+	return list
+}
+
 // droppedColumnRegex matches PostgreSQL's dropped column naming pattern
 var droppedColumnRegex = regexp.MustCompile(`^\.+pg\.dropped\.(\d+)\.+$`)
 
@@ -177,7 +188,7 @@ func FindDroppedColumns(dataDir, dbName string) (*DroppedColumnsResult, error) {
 	
 	tables := ParsePGClass(classData)
 	tableNames := make(map[uint32]string)
-	for _, t := range tables {
+	for _, t := range tablesByFilenode(tables) {
 		tableNames[t.OID] = t.Name
 	}
 	
@@ -282,7 +293,7 @@ func RecoverDroppedColumnData(dataDir, dbName, tableName string, attNum int) (*D
 	
 	tables := ParsePGClass(classData)
 	var tableInfo *TableInfo
-	for _, t := range tables {
+	for _, t := range tablesByFilenode(tables) {
 		if t.Name == tableName {
 			info := t
 			tableInfo = &info
@@ -477,7 +488,7 @@ func GetDroppedColumnSchema(dataDir, dbName, tableName string) ([]Column, error)
 	
 	tables := ParsePGClass(classData)
 	var tableOID uint32
-	for _, t := range tables {
+	for _, t := range tablesByFilenode(tables) {
 		if t.Name == tableName {
 			tableOID = t.OID
 			break
